@@ -47,3 +47,9 @@ Example C01_hyp_sat :
            [WVal (VSeq [VStr [104; 105]; VSome (VInt (-3))]);
             WItems [[VNone; VCase 1 (VSeq [VInt 300; VInt 0])]; []; [VCase 0 (VBits 1065353216)]]] = true.
 Proof. vm_compute. reflexivity. Qed.
+
+(* the constants of the model (varint byte budgets, magic bytes, format version, nesting limit, default
+   buffer size >= 10) are those of the current sources (Gen/Tables.v is regenerated from /repo on every run) *)
+From YV Require Import Proofs.GenTie.
+Theorem C01_constants_are_the_sources : constants_statement.
+Proof. exact constants_agree. Qed.
